@@ -484,6 +484,34 @@ def parent(node):
     return getattr(node, "_parent", None)
 
 
+def clone(node):
+    """structural copy of an AST subtree with positions, WITHOUT the `_parent` back links (copy.deepcopy would follow them and copy the
+    whole module); parents inside the copy are set afresh, the root's parent is left unset"""
+    if isinstance(node, list):
+        return [clone(x) for x in node]
+    if not isinstance(node, ast.AST):
+        return node
+    new = type(node)()
+    for fld in node._fields:
+        if hasattr(node, fld):
+            v = clone(getattr(node, fld))
+            setattr(new, fld, v)
+            for ch in (v if isinstance(v, list) else [v]):
+                if isinstance(ch, ast.AST):
+                    ch._parent = new  # type: ignore
+    for a in ("lineno", "col_offset", "end_lineno", "end_col_offset"):
+        if hasattr(node, a):
+            setattr(new, a, getattr(node, a))
+    return new
+
+
+def set_parents(root, root_parent=None):
+    root._parent = root_parent  # type: ignore
+    for n in ast.walk(root):
+        for ch in ast.iter_child_nodes(n):
+            ch._parent = n  # type: ignore
+
+
 def enclosing_stmt(node):
     cur = node
     while cur is not None and not isinstance(cur, ast.stmt):
